@@ -98,8 +98,8 @@ def multilineLoop : Nat → Bytes → Bytes → Bytes
 def unquoteMultiline (s : Bytes) : Option Bytes :=
   let n := s.length
   if n < 6 then none
-  else if n == 6 then some []
   else if s.getD 0 0 != s.getD (n - 1) 0 || s.getD 1 0 != s.getD (n - 2) 0 || s.getD 2 0 != s.getD (n - 3) 0 then none
+  else if n == 6 then some []
   else
     let quote := s.getD 0 0
     let body := (s.drop 3).take (n - 6)
